@@ -300,6 +300,16 @@ fn programs(family: &str) -> Vec<(String, Outcome)> {
             p("add :: fn a, b do\n    ret a + b\nend\nstart :: fn do\n    x := 1\n    s := \"x\"\n    add(x, s)\nend\n", Outcome::Reject);
             p("lt :: fn a, b do\n    ret a < b\nend\nstart :: fn do\n    x := true\n    y := false\n    lt(x, y)\nend\n", Outcome::Reject);
             p("inc :: fn x do\n    x + 1\nend\nstart :: fn do\n    s := 2\n    inc(s)\nend\n", Outcome::Accept);
+            // a generic helper used at several types: every use instantiates (copies) its type with its deferred constraints
+            let ge = "ge :: fn a, b ->\n    a >= b\nend\n";
+            p(&format!("{}start :: fn do\n    x := ge(3, 2)\n    y := ge(\"b\", \"a\")\nend\n", ge), Outcome::Accept);
+            p(&format!("{}start :: fn do\n    x := ge(3, 2)\n    y := ge(true, false)\nend\n", ge), Outcome::Reject);
+            let lt = "lt :: fn a, b -> bool do\n    a < b\nend\n";
+            p(&format!("{}start :: fn do\n    x := lt(1, 2)\n    y := lt(\"a\", \"b\")\nend\n", lt), Outcome::Accept);
+            p(&format!("{}start :: fn do\n    x := lt(1, 2)\n    y := lt(1, \"b\")\nend\n", lt), Outcome::Reject);
+            let ad = "ad :: fn a, b ->\n    a + b\nend\n";
+            p(&format!("{}start :: fn do\n    x := ad(1, 2)\n    y := ad(\"a\", \"b\")\nend\n", ad), Outcome::Accept);
+            p(&format!("{}start :: fn do\n    x := ad(1, 2)\n    y := ad(1, \"b\")\nend\n", ad), Outcome::Reject);
         }
         "lits" => {
             // constructs applied to literals of a type they do not accept (the literal-level clauses of expression)
